@@ -6,6 +6,7 @@
 //@ harness c10_txhashset_msgs_canonical kind=complete tier=quick fns=TxHashSetRequest::read,TxHashSetRequest::write,TxHashSetArchive::read,TxHashSetArchive::write bound=-
 //@ harness c10_segment_request_canonical kind=complete tier=quick fns=SegmentRequest::read,SegmentRequest::write,SegmentIdentifier::read,SegmentIdentifier::write bound=-
 //@ harness c10_ban_reason_canonical kind=complete tier=quick fns=BanReason::read,BanReason::write bound=-
+//@ harness c10_ban_reason_short_body kind=complete tier=quick fns=BanReason::read bound=-
 use crate::core::ser::SerializationMode;
 use crate::core::verif_kani_support::{KReader, KWriter};
 
@@ -113,3 +114,18 @@ fn c10_ban_reason_canonical() {
 		}
 	}
 }
+
+/// BanReason: a body SHORTER than the four tag bytes (0..=3 bytes: a count inconsistent with the content) is refused,
+/// not defaulted to a tag.
+#[kani::proof]
+#[kani::unwind(6)]
+#[kani::stub(alloc::fmt::format, stub_format)]
+fn c10_ban_reason_short_body() {
+	let mut r = KReader::<3>::any();
+	let b = BanReason::read(&mut r);
+	assert!(b.is_err(), "C10: a BanReason body shorter than its tag is refused, not defaulted");
+	// the Err payload (an io error holding an empty String) is not dropped: Kani's __rust_dealloc model reports a spurious
+	// layout mismatch for it; nothing decided here depends on the drop
+	std::mem::forget(b);
+}
+
